@@ -33,6 +33,7 @@ def showOutcome {α} (f : α → String) : Outcome α → String
   | .ok v => "some " ++ f v
   | .none => "none"
   | .panic => "panic"
+  | .diverges => "diverges"
   | .unmodelled => "unmodelled"
 
 /-! ### cmp -/
@@ -114,6 +115,7 @@ def bindOutcome {α β} (o : Outcome α) (f : α → Outcome β) : Outcome β :=
   | .ok v => f v
   | .none => .none
   | .panic => .panic
+  | .diverges => .diverges
   | .unmodelled => .unmodelled
 
 def layerCase (op a b c name : String) : Option String := do
